@@ -24,13 +24,14 @@ PID = 'C01'
 
 def tour_job(arg):
     """one (workbook, pool, source, file types) graph: TLC + tours"""
-    name, pool, src, fts, seed, max_viol = arg
+    name, pool, src, fts, seed, max_viol = arg[:6]
+    recalc = len(arg) > 6 and arg[6]
     rnd = random.Random(seed)
     wb = W.WORKBOOKS[name]
     oracle = engine.Oracle(wb)
-    g = engine.gen_graph(name, wb, pool, src)
+    g = engine.gen_graph(name, wb, pool, src, recalc=recalc)
     out = dict(name=name, src=src, tlc=dict(
-        run=f'Engine {name}/{src} pool={len(pool)}', distinct=g.tlc.distinct,
+        run=f'Engine {name}/{src} pool={len(pool)} recalc={recalc}', distinct=g.tlc.distinct,
         generated=g.tlc.generated, depth=g.tlc.depth, wall_s=round(g.tlc.wall, 2)),
         tours=[], violations=[], notes=[], cases=0, keys=set(), restarts=0,
         sample=dict(workbook=name, source=src,
@@ -189,6 +190,7 @@ def run(tier, seed):
                 jobs.append((name, W.POOL_QUICK, src,
                              ('yml',) if src == 'Loaded' else ('-',), seed, 5))
         jobs.append(('cse', W.POOL_QUICK[:4], 'NoData', ('-',), seed, 5))
+        jobs.append(('range', W.POOL_QUICK[:3], 'Stored', ('-',), seed, 5, True))
     else:
         for name in W.WORKBOOKS:
             for src in ('NoData', 'Stored', 'Loaded'):
@@ -198,6 +200,9 @@ def run(tier, seed):
         for name in ('chain', 'alias', 'nested'):
             for src in ('NoData', 'Stored'):
                 jobs.append((name, W.POOL_FULL, src, ('-',), seed, 5))
+        for name in ('chain', 'range', 'alias', 'cse', 'trimex'):
+            jobs.append((name, W.POOL_QUICK[:3], 'NoData', ('-',), seed, 5, True))
+            jobs.append((name, W.POOL_QUICK[:3], 'Loaded', ('yml', 'pkl'), seed, 5, True))
     if tier == 'quick':
         tjobs = [(i, src, 'yml', 12, 25, seed) for i in range(3)
                  for src in ('NoData', 'Stored', 'Loaded')]
